@@ -110,6 +110,12 @@ class Eval:
             return self.F.const_val(LIB, e["res"]["def"])
         if e.get("e") == "path" and "local" in e["res"] and e["res"]["local"] in self.binds:
             return self.const(self.binds[e["res"]["local"]])
+        if e.get("e") == "bin" and e["op"] in ("+", "-", "*", "<<", ">>"):
+            l, r = self.const(e["l"]), self.const(e["r"])
+            if l is None or r is None:
+                return None
+            v = {"+": l + r, "-": l - r, "*": l * r, "<<": l << r if 0 <= r < 64 else None, ">>": l >> r if 0 <= r < 64 else None}[e["op"]]
+            return v if v is not None and 0 <= v <= U32 else None      # overflow would not compile / would panic: not understood
         return None
 
     def bits(self, e, depth=0):
